@@ -41,9 +41,9 @@ import (
 // Observation after every arbround: phase, passed-arbitration annotation, still waiting.
 // Phase codes: 0 "", 1 Pending, 2 Running, 3 Succeeded, 4 Failed, 5 Aborted.
 //
-// The stream that ADDS an already Succeeded / Failed job (what a controller restart does) is gated OFF by default
-// (VERIF_C17_ARB_RESTART=1 arms it): on the unchanged tree updateFailedJob flips such a job to Failed
-// (fingerprint C17:terminal-phase-changed:arbitrator-after-restart).
+// The stream that ADDS an already Succeeded / Failed / Aborted job (what a controller restart does) is ARMED by default
+// (VERIF_C17_ARB_RESTART=0 disarms it).  Before fix 2a5d178 updateFailedJob flipped such a job to Failed
+// (fingerprint C17:terminal-phase-changed:arbitrator-after-restart; smallest history: arbinit 3 1 1 1, arbadd, arbround).
 
 var c17aPhases = []v1alpha1.PodMigrationJobPhase{"", v1alpha1.PodMigrationJobPending, v1alpha1.PodMigrationJobRunning,
 	v1alpha1.PodMigrationJobSucceeded, v1alpha1.PodMigrationJobFailed, v1alpha1.PodMigrationJobAborted}
@@ -129,7 +129,7 @@ func TestVerifC17Arb(t *testing.T) {
 	klog.InitFlags(fs)
 	_ = fs.Set("logtostderr", "false")
 	_ = fs.Set("stderrthreshold", "FATAL")
-	armed := os.Getenv("VERIF_C17_ARB_RESTART") == "1"
+	armed := os.Getenv("VERIF_C17_ARB_RESTART") != "0"
 	scheme := runtime.NewScheme()
 	_ = v1alpha1.AddToScheme(scheme)
 	_ = clientgoscheme.AddToScheme(scheme)
@@ -232,5 +232,5 @@ func TestVerifC17Arb(t *testing.T) {
 	h.Extra("armed(VERIF_C17_ARB_RESTART)", armed)
 	h.Close("one history of one PodMigrationJob against the real arbitrator (Create/Update handler, doOnceArbitrate with a scripted non-retryable / retryable filter, fake client with status subresource): " +
 		"job added while live, moved on by the controller (Status().Update: the arbitrator's copy goes stale), pod present / absent, arbitration rounds; " +
-		"adding an already Succeeded / Failed job (controller restart) only when VERIF_C17_ARB_RESTART=1; non-trivial = at least one arbitration round ran; distinct by op lines")
+		"half of the jobs are ADDED while already Succeeded / Failed / Aborted and restarts re-add finished jobs (what a controller restart does; VERIF_C17_ARB_RESTART=0 disarms); non-trivial = at least one arbitration round ran; distinct by op lines")
 }
